@@ -20,7 +20,7 @@ from ..core import Suite, Ctx
 from .. import tg, cg, gen
 from ..same import same
 from ..codec import short, clone
-from ..typed import shape_error
+from ..typed import shape_error, base_value_error
 from ..oracles import outcome, judge_conv, conv_disagreement, report
 
 ID = 'C01'
@@ -63,7 +63,7 @@ def check(case: t.Any, ctx: Ctx) -> None:
     if out1[0] == 'ok':
         # whatever the verdict oracle says (also in its unspecified cells): a returned value is the exactly-typed image at every depth
         ctx.evaluated()
-        d = shape_error(nd, out1[1])
+        d = shape_error(nd, out1[1]) or base_value_error(nd, v, out1[1])
         if d is not None:
             ctx.fail('exactly-typed', nd.kind, f"from_data({short(v, 200)}, {nd.render()[:300]}) returned {short(out1[1], 150)}: {d}")
 
